@@ -159,7 +159,13 @@ func doPut(q queue.Queue, id, n int, crashAt int, torn bool) (crashed bool, err 
 	ctl.mu.Lock()
 	ctl.armed, ctl.stores, ctl.crashAt, ctl.torn = true, 0, crashAt, torn
 	ctl.mu.Unlock()
-	err = q.Put(message(id, n))
+	msg := message(id, n)
+	defer func() { // the queue keeps its own copy: the caller's buffer is reused for the next message
+		for i := range msg {
+			msg[i] = '#'
+		}
+	}()
+	err = q.Put(msg)
 	return
 }
 
